@@ -101,6 +101,8 @@ func (E *Engine) VerifyFunc(name string) (rep FuncReport) {
 		return
 	}
 	E.npaths = 0
+	E.SumsOn = c.Sums
+	defer func() { E.SumsOn = false }()
 	m := &Machine{E: E, Heap: map[int]Val{}, G: map[string]*Term{}}
 	m.Entry = &Snapshot{G: map[string]*Term{}, Heap: map[int]Val{}}
 	top := &TopCtx{Fn: fn, Name: name, C: c}
@@ -140,6 +142,10 @@ func (E *Engine) VerifyFunc(name string) (rep FuncReport) {
 			m.Entry.G[k] = v
 		}
 	}
+	if E.EntryPC == nil {
+		E.EntryPC = map[string][]*Term{}
+	}
+	E.EntryPC[name] = append([]*Term{}, m.PC...)
 	rnames := resultNames(fn)
 	E.Run(m, func(pe pathEnd) {
 		rep.Paths++
